@@ -114,12 +114,13 @@ class HelloUnit:
     """One region -> one Gallina file Gen/<name>.v"""
 
     def __init__(self, name, func, start, end, inputs, schema_thunk, registries, externals=None, local_types=None,
-                 slice_doc=''):
+                 slice_doc='', pre=None):
         self.name, self.func, self.start, self.end = name, func, start, end
         self.inputs, self.schema_thunk, self.registries = inputs, schema_thunk, registries
         self.externals = externals or {}
         self.local_types = local_types or {}
         self.slice_doc = slice_doc
+        self.pre = pre          # dict(name, args, gallina, prove, use): see crashlite.emit_proofs
         self.last = None
 
     def translate(self):
@@ -148,22 +149,45 @@ class HelloUnit:
                 '(* program points with an explicit Crash outcome (kind, site, source line) *)',
                 'Definition %s_crash_points : list (string * string) := [\n%s\n].' % (
                     self.name, ';\n'.join('  (%s, %s) (* line %d *)' % (cl.gstr(k), cl.gstr(s), ln) for k, s, ln in rt.sites)),
-                '', body]
+                '', body] + ([self.pre['gallina']] if self.pre else [])
         return '\n'.join(head)
+
+
+# Fact about the ClientHello established by the first check of the region (an empty
+# supported_versions extension is answered with decode_error) and needed by later statements
+# (`for v in ext.versions`, `(3, 4) in ver_ext.versions`).  It is PROVED at the first boundary of
+# the entry point and ASSUMED by the boundary lemmas (the inputs are immutable); nothing is trusted.
+CH_PRE = dict(
+    name='ch_pre', args=['clientHello'],
+    gallina='''
+Definition ch_pre (clientHello : ClientHello_r) : Prop :=
+  forall r, getExtensionAs as_SupportedVersionsExtension (ClientHello_extensions clientHello) 43 = OK (Some r) ->
+    exists x l, SupportedVersionsExtension_versions r = Some (x :: l).
+''',
+    prove='''unfold ch_pre; let r_ := fresh "r_" in let Hr_ := fresh "Hr_" in intros r_ Hr_;
+  match goal with E : getExtensionAs as_SupportedVersionsExtension _ 43 = _ |- _ => rewrite E in Hr_ end;
+  first [ discriminate Hr_ | injection Hr_ as <-; eauto ]''',
+    use='''match goal with
+  | Hpre : ch_pre _, E : getExtensionAs as_SupportedVersionsExtension _ 43 = OK (Some ?r)
+    |- context [SupportedVersionsExtension_versions ?r] =>
+    let x := fresh "x" in let l := fresh "l" in let Hv := fresh "Hv" in
+    destruct (Hpre r E) as [x [l Hv]]; rewrite Hv in *
+  end''')
 
 
 def ch_unit():
     return HelloUnit(
         'ChChecks', '_serverGetClientHello',
-        start='real_version = clientHello.client_version', end='high_ver = None',
+        start='ext = clientHello.getExtension(ExtensionType.supported_versions)', end='high_ver = None',
         inputs=[('clientHello', OBJ('ClientHello')), ('settings', OBJ('Settings')),
                 ('is_valid_hostname', FUN([BYTES], BOOL))],
         schema_thunk=lambda: build_schema(CH_EXTS, CH_CLASSES),
         registries={'ClientHello': registry_client},
         externals={'is_valid_hostname': ([BYTES], BOOL)},
         local_types={'key_exchange': OPT(TAG)},
-        slice_doc='slice: from "real_version = clientHello.client_version" up to (not including) "high_ver = None": '
-                  'the well-formedness checks of the ClientHello and its extensions')
+        slice_doc='slice: from the first "ext = clientHello.getExtension(ExtensionType.supported_versions)" up to (not '
+                  'including) "high_ver = None": the well-formedness checks of the ClientHello and its extensions',
+        pre=CH_PRE)
 
 
 PROOF_LIB = '''
@@ -190,6 +214,7 @@ Proof.
 Qed.
 Ltac c08_domain ::=
   match goal with
+  | |- _ => c08_unit_domain
   | |- _ => progress c08_unfold_props
   | |- context [getExtensionAs ?c ?e ?t] =>
     let o := fresh "o" in let E := fresh "E" in
@@ -223,8 +248,10 @@ class ProofUnit:
             'From TV Require Import Base.Prelude Base.C08_Lib Gen.%s Proofs.C08_Symex %s.' % (u.name, self.sites_module),
             'Import ListNotations.', 'Open Scope Z_scope.',
             'Ltac c08_unfold_props := %s.' % (('unfold ' + ', '.join(props) + ' in *') if props else 'fail'),
+            'Ltac c08_unit_domain := %s.' % (u.pre['use'] if u.pre else 'fail'),
+            'Ltac c08_pre := %s.' % (u.pre['prove'] if u.pre else 'fail'),
             PROOF_LIB,
-            rt.emit_proofs(self.sites_name),
+            rt.emit_proofs(self.sites_name, (u.pre['name'], u.pre['args']) if u.pre else None),
             'Theorem %s_crash_sites : forall %s, crash_in %s (%s %s).' % (
                 u.name, ' '.join(n for n, _ in u.inputs), self.sites_name, u.name, ' '.join(n for n, _ in u.inputs)),
             'Proof. exact %s_ok. Qed.' % u.name, ''])
